@@ -208,11 +208,20 @@ class Charge:
 
         # Changing = to += since charge dataframe is reset, the pixel array need to be
         # incremented, we can't do the whole operation on each iteration
+        # Only keep the charges located inside the detector's sensitive area
+        # Note: function 'df_to_array' does not check the indices
+        is_inside = (
+            (pixel_index_ver >= 0)
+            & (pixel_index_ver < self._geo.row)
+            & (pixel_index_hor >= 0)
+            & (pixel_index_hor < self._geo.col)
+        )
+
         return df_to_array(
             array=array,
-            charge_per_pixel=charge_per_pixel,
-            pixel_index_ver=pixel_index_ver,
-            pixel_index_hor=pixel_index_hor,
+            charge_per_pixel=charge_per_pixel[is_inside],
+            pixel_index_ver=pixel_index_ver[is_inside],
+            pixel_index_hor=pixel_index_hor[is_inside],
         )
 
     @staticmethod
